@@ -113,7 +113,7 @@ SPECS = {
             rr_prefix_at(final(buffer).bytes(), old(buffer).bytes().len() as int) is Some
             && rr_header_is(*self, final(buffer).bytes(), old(buffer).bytes().len() as int)
             && rr_end(final(buffer).bytes(), old(buffer).bytes().len() as int) == final(buffer).bytes().len(), // [C04:written_record_header_reads_back_and_rdlength_spans_the_rdata]""",
-        "attrs": "#[verifier::rlimit(150)] // 20 match arms",
+        "attrs": "#[verifier::rlimit(600)] // 20 match arms",
         "entry": "broadcast use lemma_be16_div_mod;",
         "anchors": [{"after": "self.name.serialise(buffer, true);", "proof": "let ghost w1__ = *buffer;"},
                     {"after": "buffer.write_u32(self.ttl);", "proof": "let ghost w_mid__ = *buffer;"},
@@ -160,7 +160,7 @@ def build(G):
     G.item(S, "enum", "Error")
     G.item(S, "struct", "WritableBuffer")
     G.file(os.path.join(PRELUDE, "wire_spec.rs"))
-    nd = WD.SPEC_RS[WD.SPEC_RS.index("// ---- C03 stage 2"):WD.SPEC_RS.index("pub open spec fn msg_counts_ok")]
+    nd = WD.SPEC_RS[WD.SPEC_RS.index("// ---- C03 stage 2"):WD.SPEC_RS.index("// RDATA per record type")]
     G.raw(nd, ("spec", "name spec decoder (shared with wire_decode)"))
     G.file(os.path.join(VERIF, "units", "wire_codec.spec.rs"))
     specs = dict(SPECS)
